@@ -712,7 +712,7 @@ type opRec struct {
 }
 
 var mutKinds = []string{
-	"dsp_inblock", "dsp_spent", "dsp_sameblock_created", "dup_in_txn", "dup_txn",
+	"dsp_inblock", "dsp_inblock_multi", "dsp_inblock_multi", "dsp_inblock_multi", "dsp_inblock_multi", "dsp_spent", "dsp_sameblock_created", "dup_in_txn", "dup_txn",
 	"coins_plus1", "coins_minus1", "out_overflow", "zero_coin", "hours_plus1",
 	"wrong_signer", "null_sig", "drop_sig", "bad_inner", "bad_length", "bad_type", "garble_sig", "dup_out",
 	"time_eq", "time_minus1", "time_plus1", "seq_plus1", "seq_minus1", "seq_zero", "fee_plus1", "version_plus1",
@@ -823,6 +823,91 @@ func (h *history) mutate(kind string) (opRec, bool) {
 			n := len(b.Body.Transactions)
 			b.Body.Transactions[1], b.Body.Transactions[n-1] = b.Body.Transactions[n-1], b.Body.Transactions[1]
 		}
+		rehash(&b)
+	case "dsp_inblock_multi":
+		// two (or three) transactions, each valid on its own, sharing the input X, with
+		// MULTI-input transactions so that X sits at different positions of the input
+		// lists; both orders; the whole body is replaced
+		var sp []coin.UxOut
+		for _, ux := range h.unspent {
+			if _, ok := w.keyOf[ux.Body.Address]; ok {
+				sp = append(sp, ux)
+			}
+		}
+		if len(sp) < 2 {
+			return opRec{}, false
+		}
+		r2 := r.Intn(len(sp))
+		sp[0], sp[r2] = sp[r2], sp[0]
+		r3 := 1 + r.Intn(len(sp)-1)
+		sp[1], sp[r3] = sp[r3], sp[1]
+		X, Y := sp[0], sp[1]
+		mk := func(ins ...coin.UxOut) (coin.Transaction, bool) {
+			var c, hr uint64
+			for _, ux := range ins {
+				if c+ux.Body.Coins < c {
+					return coin.Transaction{}, false
+				}
+				c += ux.Body.Coins
+				hh := hoursAt(ux, head.Head.Time)
+				if hr+hh < hr {
+					hh = 0
+					hr = 0
+				}
+				hr += hh
+			}
+			return w.buildTxn(ins, w.splitOuts(c, hr/2), txOpt{}), true
+		}
+		var S, T coin.Transaction
+		var okS, okT bool
+		variant := r.Intn(4)
+		if len(sp) < 3 && variant >= 2 {
+			variant = r.Intn(2)
+		}
+		switch variant {
+		case 0: // S.In = [Y, X], T.In = [X]
+			S, okS = mk(Y, X)
+			T, okT = mk(X)
+		case 1: // S.In = [X, Y], T.In = [X]
+			S, okS = mk(X, Y)
+			T, okT = mk(X)
+		case 2: // S.In = [X, Y], T.In = [Z, X]
+			S, okS = mk(X, Y)
+			T, okT = mk(sp[2], X)
+		default: // S.In = [Y, X], T.In = [Z, X]  and  [X, Z] half of the time
+			S, okS = mk(Y, X)
+			if r.Bool() {
+				T, okT = mk(sp[2], X)
+			} else {
+				T, okT = mk(X, sp[2])
+			}
+		}
+		if !okS || !okT {
+			return opRec{}, false
+		}
+		txs := coin.Transactions{S, T}
+		if r.Bool() {
+			txs = coin.Transactions{T, S}
+		}
+		// sometimes a third, independent transaction before / between / after
+		used := map[cipher.SHA256]bool{}
+		for _, t := range txs {
+			for _, in := range t.In {
+				used[in] = true
+			}
+		}
+		if r.Chance(40) {
+			for _, ux := range sp {
+				if !used[ux.Hash()] {
+					if U, ok := mk(ux); ok {
+						pos := r.Intn(3)
+						txs = append(txs[:pos:pos], append(coin.Transactions{U}, txs[pos:]...)...)
+					}
+					break
+				}
+			}
+		}
+		b.Body.Transactions = txs
 		rehash(&b)
 	case "dsp_spent":
 		if len(h.spent) == 0 {
